@@ -57,6 +57,7 @@ void verify_archive(const std::string& out, const std::vector<InFile>& fs, Tape&
 void cleanup_inputs(const std::vector<InFile>& fs) { for (auto& f : fs) remove((f.dir + f.name).c_str()); }
 
 void success_case(Tape& t, Stats& st, std::vector<InFile> fs, bool sample) {
+	adopted_listing().clear();
 	// one case in eight: an input is named like a temporary / backup companion of the output (out.vol.tmp, out.vol.bak, out.vol~ ...) and sits
 	// next to it: another file, so a legal input, and it must come through unharmed like any other
 	int companion = -1; std::string stem;
@@ -96,6 +97,14 @@ void success_case(Tape& t, Stats& st, std::vector<InFile> fs, bool sample) {
 	Out o = guarded([&] { VolFile::CreateArchive(out, paths); }, &what);
 	V_CHECK(o == Out::Ok, "CreateArchive refused a legal file set (" << fs.size() << " files): " << what);
 	for (auto& f : fs) V_CHECK(slurp(f.dir + f.name) == f.content, "input file " << jstr(f.dir + f.name) << " was modified by CreateArchive");
+	{ // names holding bytes >= 0x80: their rank against ASCII is the implementation's choice (ref_vol.h); the written listing must be ascending under SOME
+	  // case-insensitive byte order, hold exactly the input names, and is then what the remaining checks follow
+		bool hi = false; for (auto& f : fs) if (refvol::has_high_byte(f.name)) hi = true;
+		if (hi) { refvol::Loose L; std::vector<uint8_t> got = slurp(out); V_CHECK(refvol::locate(got, L) && L.names.size() == fs.size(), "the written archive does not list " << fs.size() << " names");
+			std::string oe = refvol::order_consistent(L.names); V_CHECK(oe.empty(), "written archive: " << oe);
+			std::vector<std::string> x = L.names, y; for (auto& f : fs) y.push_back(f.name); std::sort(x.begin(), x.end()); std::sort(y.begin(), y.end()); V_CHECK(x == y, "the written archive does not list exactly the input names");
+			adopted_listing() = L.names; st.cls("names_with_bytes_above_0x7F"); }
+	}
 	{ // the whole file, byte for byte, against the independent encoder (also catches a stale tail left by a lost truncation)
 		std::vector<refvol::Member> ms; for (size_t i : expected_order(fs)) { refvol::Member m; m.name = fs[i].name; m.payload = fs[i].content; m.sizeField = uint32_t(m.payload.size()); ms.push_back(m); }
 		std::vector<uint8_t> want = refvol::encode(ms), got = slurp(out);
@@ -116,7 +125,7 @@ void success_case(Tape& t, Stats& st, std::vector<InFile> fs, bool sample) {
 	st.cls("table_mod4:" + std::to_string(tbl % 4));
 	st.cls("files:" + std::to_string(std::min<size_t>(fs.size(), 8)));
 	if (fs.size() >= 2 && nonempty) { uint64_t h = fs.size(); for (auto& f : fs) h = fnv1a(f.name.data(), f.name.size(), hmix(h, f.content.size())); for (auto& p : paths) h = fnv1a(p.data(), p.size(), h); st.nt(h); }
-	cleanup_inputs(fs); remove(out.c_str()); rmdir("%o/%new");
+	cleanup_inputs(fs); remove(out.c_str()); rmdir("%o/%new"); adopted_listing().clear();
 }
 
 // (a) two inputs equal ignoring case
